@@ -45,10 +45,7 @@ impl Formatter for GithubAnnotationNativeFormatter {
             a.line_no
                 .cmp(&b.line_no)
                 .then_with(|| a.line_pos.cmp(&b.line_pos))
-                .then_with(|| {
-                    let b = b.rule.as_ref().unwrap().code;
-                    a.rule.as_ref().unwrap().code.cmp(b)
-                })
+                .then_with(|| a.rule_code().cmp(b.rule_code()))
         });
 
         for violation in violations {
@@ -57,7 +54,7 @@ impl Formatter for GithubAnnotationNativeFormatter {
                 linted_file.path,
                 violation.line_no,
                 violation.line_pos,
-                violation.rule.as_ref().unwrap().code,
+                violation.rule_code(),
                 violation.description
             );
             self.dispatch(&message);
